@@ -465,6 +465,117 @@ def scenario_delete(config="plain"):
     return problems
 
 
+def build_spiral(unit, stride, max_loops):
+    """a(P) = 5 + b(P shifted back by `stride` units); b(P) = 6 + a(P): a quasi-circular chain across periods"""
+    from openfisca_core import entities, periods, taxbenefitsystems, variables
+    from openfisca_core.simulations import SimulationBuilder
+    person = entities.build_entity(key="person", plural="persons", label="", is_person=True)
+    tbs = taxbenefitsystems.TaxBenefitSystem([person])
+    U = periods.DateUnit(unit)
+
+    class sp_a(variables.Variable):
+        value_type = int
+        entity = person
+        definition_period = U
+
+        def formula(p, period):
+            return 5 + p("sp_b", period.offset(-stride))
+
+    class sp_b(variables.Variable):
+        value_type = int
+        entity = person
+        definition_period = U
+
+        def formula(p, period):
+            return 6 + p("sp_a", period)
+    tbs.add_variables(sp_a, sp_b)
+    sim = SimulationBuilder().build_default_simulation(tbs, count=1)
+    sim.max_spiral_loops = max_loops
+    return sim
+
+
+def scenario_spirals():
+    """quasi-circular chains (monthly and daily, strides 1 and 2, one or two allowed re-entries, with and without an input lying
+    between two periods of the chain): after each top-level request every input is still readable with its value, and every other
+    readable value is what a fresh simulation given the inputs and the other readable values computes (the statement's closing
+    clause, checked on these histories only)"""
+    from openfisca_core import periods as P
+    problems = []
+    setups = [("month", 1, 1, "2013-06", None), ("month", 1, 2, "2013-06", None), ("month", 2, 1, "2013-06", ("sp_a", "2013-05", 100)),
+              ("month", 2, 2, "2013-07", ("sp_a", "2013-04", 100)), ("day", 1, 1, "2013-03-01", None), ("day", 1, 2, "2013-03-02", None),
+              ("day", 2, 1, "2013-03-02", ("sp_a", "2013-03-01", 100)), ("month", 1, 1, "2013-06", ("sp_b", "2013-04", 50))]
+    for unit, stride, loops, first, given in setups:
+        tag = f"[{unit} chain, stride {stride}, max_spiral_loops {loops}, input {given}]"
+        sim = build_spiral(unit, stride, loops)
+        if given:
+            sim.set_input(given[0], given[1], [given[2]])
+        requests = [("sp_a", first), ("sp_b", str(P.period(first).offset(-1))), ("sp_a", str(P.period(first).offset(1)))]
+        for name, per in requests:
+            sim.calculate(name, per)
+            readable = {}
+            for v in ("sp_a", "sp_b"):
+                h = sim.persons.get_holder(v)
+                for kp in h.get_known_periods():
+                    readable[(v, str(kp))] = h.get_array(kp).tolist()
+            if given and readable.get((given[0], str(P.period(given[1])))) != [given[2]]:
+                problems.append(f"{tag} after calculate({name}, {per}) the input {given[0]}@{given[1]} = {given[2]} reads {readable.get((given[0], str(P.period(given[1]))))}")
+                break
+            for (v, kp), val in readable.items():
+                if given and (v, kp) == (given[0], str(P.period(given[1]))):
+                    continue
+                fresh = build_spiral(unit, stride, loops)
+                for (v2, kp2), val2 in readable.items():
+                    if (v2, kp2) != (v, kp):
+                        fresh.set_input(v2, kp2, val2)
+                want = fresh.calculate(v, kp).tolist()
+                if want != val:
+                    problems.append(f"{tag} after calculate({name}, {per}) the simulation keeps {v}@{kp} = {val}; a fresh simulation given the inputs and the other readable values computes {want}")
+                    break
+            if problems:
+                break
+        if problems:
+            break
+    return problems
+
+
+def storage_delete_problems():
+    """deleting a period from a store removes exactly the stored periods it contains: day, week, weekday, month and year periods,
+    in memory and on disk"""
+    import numpy
+    import shutil
+    import tempfile
+    from openfisca_core import periods as P
+    from openfisca_core.data_storage import InMemoryStorage, OnDiskStorage
+    problems = []
+    stored = ["2020-02-28", "2020-02-29", "2020-03-01", "2020-02", "2020-03", "2020", "2021", "week:2020-W09", "week:2020-W10", "weekday:2020-W09-5", "2020-03-02",
+              "month:2020-02:3", "year:2020-03"]
+    for target in ["2020-02-29", "2020-02", "2020", "week:2020-W09", "weekday:2020-W09-5", "month:2020-02:2", "day:2020-02-28:3", "year:2020:2"]:
+        t = P.period(target)
+        t0, t1 = t.start.date, t.stop.date
+        for kind in ("memory", "disk"):
+            d = tempfile.mkdtemp(prefix="pyvc_store_") if kind == "disk" else None
+            try:
+                st = OnDiskStorage(d) if kind == "disk" else InMemoryStorage()
+                for k, ptxt in enumerate(stored):
+                    st.put(numpy.array([float(k)]), P.period(ptxt))
+                st.delete(t)
+                for k, ptxt in enumerate(stored):
+                    q = P.period(ptxt)
+                    inside = t0 <= q.start.date and q.stop.date <= t1
+                    got = st.get(q)
+                    if inside and got is not None:
+                        problems.append(f"[{kind} store] after delete({target}) the stored period {ptxt}, which lies inside, is still there")
+                    if not inside and (got is None or got.tolist() != [float(k)]):
+                        problems.append(f"[{kind} store] delete({target}) also removed or changed the stored period {ptxt}, which does not lie inside")
+            finally:
+                st = None     # (the disk store removes its directory when it is collected)
+                if d:
+                    shutil.rmtree(d, ignore_errors=True)
+            if problems:
+                return problems
+    return problems
+
+
 def scenario_trace_values():
     """the value recorded for a request in the trace is the value that request returned - also when the same variable and period was
     traced before with another value (input deleted and given anew in between)"""
@@ -489,7 +600,7 @@ def scenario_trace_values():
 def run(call):
     try:
         which = call.get("scenarios") or ["precedence", "order", "order-trace", "order-disk", "order-blacklist", "failure", "failure-trace", "trace",
-                                          "delete", "delete-disk", "interrupt-and-cycle", "trace-values"]
+                                          "delete", "delete-disk", "interrupt-and-cycle", "trace-values", "storage-delete", "spirals"]
         problems = []
         for s in which:
             if s == "precedence":
@@ -504,6 +615,10 @@ def run(call):
                 problems += scenario_trace_values()
             elif s == "interrupt-and-cycle":
                 problems += scenario_interrupt_and_cycle()
+            elif s == "storage-delete":
+                problems += storage_delete_problems()
+            elif s == "spirals":
+                problems += scenario_spirals()
             elif s.startswith("delete"):
                 problems += scenario_delete(s.split("-", 1)[1] if "-" in s else "plain")
             if problems:
